@@ -153,6 +153,7 @@ inductive Op where
   | conf (k : Kind) (n e b : Nat) (sigOk : Bool)
   | observe (n : Nat)
   | block (dt : Nat)
+  | tick (dt : Nat)      -- the pending block's time moves on by dt: the following messages are txs of a block with that time
   | valslash (v num den : Nat)
   deriving DecidableEq, Repr
 
@@ -326,12 +327,15 @@ def withdrawReward (s : State) (o : Nat) : State × Res :=
     else if getBal s.dbal o == 0 then (s, .err "empty")
     else ({ s with bal := Store.set s.bal o (getBal s.bal o + getBal s.dbal o), dbal := Store.set s.dbal o 0 }, .ok)
 
-/-- the unbonding-delegation test of `UnbondedOracle` as coded -/
-def unbondBlocked (pending : Bool) : Bool :=
+/-- the unbonding-delegation test of `UnbondedOracle` as coded: `pending` = an unbonding delegation of the delegate
+address with the oracle's validator exists; `immature` = it has an entry whose completion time is after the block time -/
+def unbondBlocked (pending immature : Bool) : Bool :=
   match unbondUbdTest with
   | .rejectIfExists => pending
+  | .rejectIfImmature => immature
   | .rejectIfMissing => !pending
   | .none => false
+  | .other => false
 
 /-- `UnbondedOracle` -/
 def unbond (s : State) (o : Nat) : State × Res :=
@@ -341,7 +345,8 @@ def unbond (s : State) (o : Nat) : State × Res :=
   | some r =>
     if r.online then (s, .err "online") else
     let pending := s.ubds.any (fun u => u.oracle == o && u.val == r.val)
-    if unbondBlocked pending then (s, .err "ubd") else
+    let immature := s.ubds.any (fun u => u.oracle == o && u.val == r.val && decide (u.completion > s.time))
+    if unbondBlocked pending immature then (s, .err "ubd") else
     let slash := slashAmount s.p r
     if getBal s.dbal o < slash then (s, .err "slash-short") else
     let pay := getBal s.dbal o - slash
@@ -464,18 +469,73 @@ def bridgeCallSlashing (s : State) (h : Nat) (snap : List Oracle) (maxH : Nat) :
   slashLoop (unslashedCalls s maxH) (·.height) (·.nonce) (·.callConf) bridgeCallStartSkip bridgeCallSlashArg
     "SlashOracle:MustAccAddressFromBech32(bridgeCallSlashing)" (fun st x => { st with curCall := x.nonce }) h snap s
 
+/-- `SlashOracle(ctx, addr.String())` where `addr, _ := GetOracleAddrByExternalAddr(ctx, member.ExternalAddress)`: an index
+miss gives the empty string (`MustAccAddressFromBech32("")` panics), a missing record panics, an offline record returns -/
+def memberSlash (h : Nat) (site : String) (st : State) (e : Nat) : Except String State :=
+  match Store.get st.byExt e with
+  | none => .error site
+  | some a =>
+    match Store.get st.oracles a with
+    | none => .error "SlashOracle:ErrNoFoundOracle"
+    | some r =>
+      if r.online then
+        .ok { st with oracles := Store.set st.oracles a { r with online := false, slashTimes := r.slashTimes + 1 },
+                      lastSlashHeight := h }
+      else .ok st
+
+def foldSlash (f : State → Nat → Except String State) : State → List Nat → Except String State
+  | st, [] => .ok st
+  | st, e :: es => match f st e with
+    | .error m => .error m
+    | .ok st' => foldSlash f st' es
+
+/-- the oracle-set loop when it walks `oracleSet.Members` (regenerated `oracleSetLoopDomain = .setMembers`): every member
+whose external address is not (resp. is) among the stored confirms is resolved through the external-address index and
+handed to `SlashOracle`; no start-height skip -/
+def membersSlashing (s : State) (h : Nat) (maxH : Nat) (site : String) : Except String (State × Bool) :=
+  (unslashedSets s maxH).foldl (fun acc x =>
+    match acc with
+    | .error e => .error e
+    | .ok (st, hs) =>
+      let conf := confExts st.osConf x.nonce
+      let sel := (x.members.map (·.1)).filter (fun e => if slashWhenConfirmMissing then !conf.contains e else conf.contains e)
+      match foldSlash (memberSlash h site) st sel with
+      | .error e => .error e
+      | .ok st' => .ok ({ st' with curOS := x.nonce }, hs || !sel.isEmpty))
+    (.ok (s, false))
+
+/-- the three loops as `slashing` calls them: the iteration domain of each is REGENERATED (`…LoopDomain`) -/
+def oracleSetSlashingBy (s : State) (h : Nat) (snap : List Oracle) (maxH : Nat) : Except String (State × Bool) :=
+  match oracleSetLoopDomain with
+  | .onlineSnapshot => oracleSetSlashing s h snap maxH
+  | .setMembers =>
+    if oracleSetSlashArg == .indexLookupUnchecked then
+      membersSlashing s h maxH "SlashOracle:MustAccAddressFromBech32(oracleSetSlashing)"
+    else .error "oracleSetSlashing:untranslated"
+  | .other => .error "oracleSetSlashing:untranslated"
+
+def batchSlashingBy (s : State) (h : Nat) (snap : List Oracle) (maxH : Nat) : Except String (State × Bool) :=
+  match batchLoopDomain with
+  | .onlineSnapshot => batchSlashing s h snap maxH
+  | _ => .error "batchSlashing:untranslated"
+
+def bridgeCallSlashingBy (s : State) (h : Nat) (snap : List Oracle) (maxH : Nat) : Except String (State × Bool) :=
+  match bridgeCallLoopDomain with
+  | .onlineSnapshot => bridgeCallSlashing s h snap maxH
+  | _ => .error "bridgeCallSlashing:untranslated"
+
 /-- `slashing` -/
 def slashing (s : State) (h : Nat) : Except String State :=
   if h ≤ s.p.window then .ok s else
   let snap := onlineOracles s
   let maxH := h - s.p.window
-  match oracleSetSlashing s h snap maxH with
+  match oracleSetSlashingBy s h snap maxH with
   | .error e => .error e
   | .ok (s1, a) =>
-    match batchSlashing s1 h snap maxH with
+    match batchSlashingBy s1 h snap maxH with
     | .error e => .error e
     | .ok (s2, b) =>
-      match bridgeCallSlashing s2 h snap maxH with
+      match bridgeCallSlashingBy s2 h snap maxH with
       | .error e => .error e
       | .ok (s3, c) => .ok (if a || b || c then refreshPower s3 else s3)
 
@@ -597,6 +657,7 @@ def step (s : State) : Op → State × Res
   | .conf k n e b sg => confirm s k n e b sg
   | .observe n => observe s n
   | .block dt => block s dt
+  | .tick dt => ({ s with time := s.time + dt }, .ok)
   | .valslash v num den => valSlash s v num den
 
 def init (p : Params) (bals : Store Nat Nat) : State := { p := p, bal := bals }
